@@ -274,6 +274,12 @@ class ComposedNode(ConfigNode):
 
         def clear(self):
             self._children.clear()
+            # keep the built-in container in sync as well - for dict/list nodes "node.ayns.clear()" ends up here
+            # (their own "clear" is a regular method, not a part of the namespace)
+            if isinstance(self, dict):
+                dict.clear(self)
+            elif isinstance(self, list):
+                list.clear(self)
 
         def on_preprocess_impl(self, path, builder):
             return self.ayns.map_nodes(lambda child_path, node: node.ayns.on_preprocess(child_path, builder), prefix=path, cache_results=True, leafs_only=False, include_self=False, recurse=False)
